@@ -1,6 +1,7 @@
 import OsacaVerif.Model.LCD
 import OsacaVerif.Spec.Deps
 import OsacaVerif.Gen.Consts
+import OsacaVerif.Lemmas.LCDPaths
 /-
   C05 — Loop-carried dependencies are exactly the cross-iteration dependency cycles.
   (Model: `LCD.lcd`; independent oracle: `Spec.cycles`.)
@@ -67,6 +68,55 @@ theorem sortPairs_perm (l : List (Nat × Rat)) : (sortPairs l).Perm l := by
   | cons x xs ih =>
     simp only [sortPairs, List.foldr_cons]
     exact (insertPair_perm x _).trans (List.Perm.cons x ih)
+
+/-! ### the path search returns exactly the simple paths -/
+
+/-- **pathsFrom_sound** (∀ edge lists, fuels, visited sets): every path the depth-first search
+    returns is a genuine simple path from `cur` to `tgt` — consecutive elements are edges of `es`
+    (`LCD.succs`) carrying the recorded weights, the last edge enters `tgt`, no vertex is repeated,
+    `tgt` is not passed through — and it never enters a vertex of `visited`; it has at most `fuel`
+    edges.  (`cur ∈ visited` is how the search is always called: `lcd` starts with `[i.line]`.) -/
+theorem pathsFrom_sound (es : List Edge) (tgt fuel cur : Nat) (visited : List Nat) (hcur : cur ∈ visited)
+    (p : List (Nat × Rat)) (hp : p ∈ pathsFrom es tgt fuel cur visited) :
+    IsSimplePath es cur tgt p ∧ Avoids visited p ∧ p.length ≤ fuel := by
+  obtain ⟨h1, h2, h3, h4, h5⟩ := pathsFrom_sound_aux es tgt fuel cur visited p hp
+  refine ⟨⟨h1, h2, ?_, fun v hv => (h4 v hv).1⟩, fun v hv => (h4 v hv).2, h5⟩
+  cases hv : verts p with
+  | nil => simp
+  | cons a t =>
+    rw [hv] at h1 h3 h4
+    simp only [List.head?_cons, Option.some.injEq] at h1
+    subst h1
+    rw [List.nodup_cons]
+    exact ⟨fun hm => (h4 a hm).2 hcur, h3⟩
+
+/-- **pathsFrom_complete**: every simple path `cur ⇝ tgt` with at most `fuel` edges that avoids
+    `visited` is returned by the search — nothing is missed. -/
+theorem pathsFrom_complete (es : List Edge) (tgt fuel cur : Nat) (visited : List Nat) (p : List (Nat × Rat))
+    (hs : IsSimplePath es cur tgt p) (ha : Avoids visited p) (hl : p.length ≤ fuel) :
+    p ∈ pathsFrom es tgt fuel cur visited := by
+  obtain ⟨h1, h2, h3, h4⟩ := hs
+  refine pathsFrom_complete_aux es tgt fuel cur visited p h1 h2 ?_ (fun v hv => ⟨h4 v hv, ha v hv⟩) hl
+  cases hv : verts p with
+  | nil => simp
+  | cons a t => rw [hv] at h3; exact (List.nodup_cons.mp h3).2
+
+/-- the search result *is* the set of simple paths of length ≤ fuel avoiding `visited` -/
+theorem pathsFrom_iff (es : List Edge) (tgt fuel cur : Nat) (visited : List Nat) (hcur : cur ∈ visited)
+    (p : List (Nat × Rat)) :
+    p ∈ pathsFrom es tgt fuel cur visited ↔ IsSimplePath es cur tgt p ∧ Avoids visited p ∧ p.length ≤ fuel :=
+  ⟨pathsFrom_sound es tgt fuel cur visited hcur p, fun ⟨a, b, c⟩ => pathsFrom_complete es tgt fuel cur visited p a b c⟩
+
+-- non-vacuity: in the diamond 1→2→4, 1→3→4 (plus a back edge 3→1 and a load edge) both simple
+-- paths 1 ⇝ 4 satisfy the predicate and are returned; the walk through the back edge is not simple
+example :
+    let e (a b : Nat) (w : Rat) : Edge := { src := ⟨a, false⟩, dst := ⟨b, false⟩, w := w }
+    let es := [e 1 2 1, e 1 3 2, e 2 4 3, e 3 4 5, e 3 1 7, { src := ⟨1, true⟩, dst := ⟨1, false⟩, w := 9 }]
+    IsSimplePath es 1 4 [(1, 1), (2, 3)] ∧ Avoids [1] [(1, 1), (2, 3)] ∧
+    IsSimplePath es 1 4 [(1, 2), (3, 5)] ∧
+    ¬ IsSimplePath es 1 4 [(1, 2), (3, 7), (1, 1), (2, 3)] ∧
+    pathsFrom es 4 5 1 [1] = [[(1, 1), (2, 3)], [(1, 2), (3, 5)]] := by
+  decide +kernel
 
 -- non-vacuity: a two-instruction accumulation loop has exactly one loop-carried cycle
 example :
